@@ -618,6 +618,17 @@ def handle (line : String) : String :=
       some (match runVisitor (render p) with
         | .ok cs => showRes (discoveredPartial own (resolveWith tbl pm) (some cs) n' kws po)
         | .error e => "err " ++ showErr e)
+    | "pautoh" :: pp :: ww :: pm :: k :: rest => do
+      -- the wrapper is decorated with modifiers.posoargs(*P) / kwoargs(*W): hint route
+      let (tbl, rest) ← parseResolve (← k.toNat?) rest
+      let (own, rest) ← parseSig rest
+      let (p, rest') ← parseProg rest
+      if rest' ≠ [] then none else
+      let P ← parseNats pp "."
+      let W ← parseNats ww "."
+      some (match runVisitor (render p) with
+        | .ok cs => showRes (discoveredHint own P W (resolveWith tbl pm) (some cs))
+        | .error e => "err " ++ showErr e)
     | "pdeclared" :: pm :: k :: rest => do
       -- the same from the GROUND TRUTH instead of the visitor (C06's expected value)
       let (tbl, rest) ← parseResolve (← k.toNat?) rest
